@@ -91,6 +91,14 @@ def rule_client_side(ctx):
                         probs.append("session variables are not inlined into the command before parameters are substituted")
                     for leaf in leaves:
                         pass
+                # a literal rendered through a cache keyed by == of the value (functools.lru_cache without typed=True) is
+                # shared by values that compare equal but render differently (True / 1 / 1.0 / Decimal('1'))
+                for e in tr.path.effects:
+                    if e[0] == "memo-call" and e[1] == "untyped" and any(a is leaf for a in e[2] for leaf in leaves):
+                        probs.append(f"bound value {next(a.tag for a in e[2] if any(a is l for l in leaves))} is rendered through a cache keyed "
+                                     f"by equality of the value (line {getattr(e[3], 'lineno', '?')}): values that compare equal but have different "
+                                     f"types (True, 1, 1.0) get each other's literal instead of quote(escape(to_snowflake(value)))")
+                        break
                 # nobody rewrites the substituted text: no re.sub/inline call above the Mod node
                 if isinstance(arg, Sym) and arg.origin and arg.origin[0] != "binop":
                     for x in _prov_nodes(arg):
